@@ -133,6 +133,11 @@ pub fn scalar_grid() -> Vec<DataType> {
         BinaryView,
         FixedSizeBinary(3),
         Null,
+        Duration(TimeUnit::Second),
+        Duration(TimeUnit::Millisecond),
+        Duration(TimeUnit::Microsecond),
+        Duration(TimeUnit::Nanosecond),
+        Decimal128(10, -2),
     ]
 }
 
@@ -590,11 +595,12 @@ pub fn build_blocks(ctx: &Ctx) -> Vec<Block> {
     // ---- strings
     let mut sizes = DIM_SIZES;
     sizes[7] = 1; // formats: no-op for strings
-    for p in dev_points(&sizes, ctx.pick(2, 4)) {
+    for p in dev_points(&sizes, ctx.pick(2, 3)) {
         let o = opts_from_point(&p);
         if !valid_point(&o) {
             continue;
         }
+        let ndev = p.iter().filter(|x| **x != 0).count();
         let al = |s: &[String]| Arc::new(col_alpha(&utf, &o, Some(s)));
         let (f, m, s) = (al(&full), al(&a1), al(&a0));
         let mut push = |family: &'static str, rows: usize, alpha: Vec<Arc<Vec<V>>>| {
@@ -603,10 +609,28 @@ pub fn build_blocks(ctx: &Ctx) -> Vec<Block> {
         push("str-1x1", 1, vec![f.clone()]);
         push("str-0rows", 0, vec![s.clone(), s.clone()]);
         if thorough {
-            push("str-1x2", 1, vec![f.clone(), f.clone()]);
-            push("str-2x1", 2, vec![f.clone()]);
-            push("str-3x1", 3, vec![m.clone()]);
-            push("str-1x3", 1, vec![m.clone(), m.clone(), m.clone()]);
+            match ndev {
+                0 | 1 => {
+                    push("str-1x2", 1, vec![f.clone(), f.clone()]);
+                    push("str-2x1", 2, vec![f.clone()]);
+                }
+                2 => {
+                    push("str-1x2", 1, vec![f.clone(), m.clone()]);
+                    push("str-1x2", 1, vec![m.clone(), f.clone()]);
+                    push("str-2x1", 2, vec![m.clone()]);
+                }
+                _ => {
+                    push("str-1x2", 1, vec![m.clone(), m.clone()]);
+                    push("str-2x1", 2, vec![m.clone()]);
+                }
+            }
+            if ndev <= 2 {
+                push("str-3x1", 3, vec![m.clone()]);
+                push("str-1x3", 1, vec![m.clone(), m.clone(), m.clone()]);
+            } else {
+                push("str-3x1", 3, vec![s.clone()]);
+                push("str-1x3", 1, vec![s.clone(), s.clone(), s.clone()]);
+            }
         } else {
             push("str-1x2", 1, vec![f.clone(), m.clone()]);
             push("str-1x2", 1, vec![m.clone(), f.clone()]);
@@ -630,7 +654,7 @@ pub fn build_blocks(ctx: &Ctx) -> Vec<Block> {
         vec![Boolean, Int64, Float64, Decimal128(10, 2), Timestamp(TimeUnit::Nanosecond, tz("+05:30")), Utf8, DataType::List(field("item", Int32, true)), struct_of(vec![field("a", Int32, true), field("b", Utf8, true)]), map_of(Int32, true)]
     };
     let max_rows = ctx.pick(2, 3);
-    for p in dev_points(&sizes, ctx.pick(3, 5)) {
+    for p in dev_points(&sizes, ctx.pick(3, 4)) {
         let o = opts_from_point(&p);
         if !valid_point(&o) {
             continue;
@@ -729,8 +753,9 @@ pub fn shrink(c: &Case, stage: &'static str) -> (Case, Fail) {
         if !in_space(c) {
             return None;
         }
+        let _ = stage;
         match run_case(c) {
-            Err(f) if f.stage == stage => Some(f),
+            Err(f) if f.stage != "harness" => Some(f),
             _ => None,
         }
     };
@@ -829,9 +854,36 @@ fn char_tags(s: &str) -> String {
     tags.join("+")
 }
 
+fn neg_scale(dt: &DataType) -> bool {
+    matches!(dt, DataType::Decimal32(_, s) | DataType::Decimal64(_, s) | DataType::Decimal128(_, s) | DataType::Decimal256(_, s) if *s < 0)
+}
+
+/// Triaged root causes (one semantic fingerprint each), decided on the case itself.
+pub fn known_root_cause(c: &Case, f: &Fail) -> Option<&'static str> {
+    if c.types.iter().any(|t| matches!(t, DataType::Duration(_))) {
+        // the writer formats durations as ISO 8601 strings ("PT1S"), the reader only parses integers
+        return Some("c17:json:duration-written-as-iso8601-string-that-the-reader-cannot-parse");
+    }
+    if c.types.iter().any(neg_scale) {
+        return Some(if f.stage == "text-invalid" { "c17:decimal-negative-scale:zero-formatted-as-000" } else { "c17:decimal-negative-scale:parse_decimal-ignores-negative-scale" });
+    }
+    None
+}
+
 pub fn fingerprint(min: &Case, f: &Fail) -> String {
+    if let Some(k) = known_root_cause(min, f) {
+        return k.into();
+    }
     let p = opts_to_point(&min.opts);
-    let devs: Vec<String> = p.iter().enumerate().filter(|(_, v)| **v != 0).map(|(d, v)| format!("{}#{}", DIM_NAMES[d], v)).collect();
+    let devs: Vec<String> = p.iter().enumerate().filter(|(_, v)| **v != 0).map(|(d, _)| DIM_NAMES[d].to_string()).collect();
+    let group = if f.stage.starts_with("text-") {
+        "written-text"
+    } else if f.stage.starts_with("read-") {
+        "read-back"
+    } else {
+        f.stage
+    };
+    let f = &Fail { stage: group, col: f.col, msg: String::new() };
     let col = f.col.unwrap_or(0).min(min.types.len().saturating_sub(1));
     let tclass = min.types.get(col).map(type_class).unwrap_or_default();
     let cell = match min.cols.get(col).and_then(|c| c.iter().find(|v| !v.is_null())) {
@@ -1265,6 +1317,10 @@ pub fn run(ctx: &Ctx, order_base: u64) -> Stats {
         match r {
             Ok(class) => st.outcome(&class),
             Err(f) if f.stage == "harness" => st.violate(order_base + idx, format!("c17:json:HARNESS:{}", f.msg.chars().take(40).collect::<String>()), f.msg.clone(), || case_json("json-rt", idx, tier, &c)),
+            Err(f) if known_root_cause(&c, &f).is_some() => {
+                st.outcome(&format!("json-rt:violation:{}", f.stage));
+                st.violate(order_base + idx, known_root_cause(&c, &f).unwrap(), format!("{} | types={:?} columns={:?} options={:?}", f.msg, c.types.iter().map(|t| t.to_string()).collect::<Vec<_>>(), c.cols.iter().map(|c| show_col(c)).collect::<Vec<_>>(), c.opts), || case_json("json-rt", idx, tier, &c));
+            }
             Err(f) => {
                 let (min, mf) = shrink(&c, f.stage);
                 let fp = if mf.stage == "nondeterministic" { "c17:json:NONDETERMINISTIC".to_string() } else { fingerprint(&min, &mf) };
